@@ -7,6 +7,7 @@
     fusion task   dag=<nodes> node=<n> index=<i>            -> "T <graph>#<args>"
     fusion check  dag=<nodes> node=<n>                       -> OK | FAIL         (fusedOK)
     fusion group  dag=<nodes> root=<n> group=a,b,c           -> OK | FAIL         (groupOKb)
+    fusion planok dag=<nodes> root=<n>                       -> OK | FAIL         (planOKb)
     fusion measure dag=<nodes> root=<n>                      -> number of reachable blockwise nodes
 
   <nodes> = `name:bw:kall:npart:ndim:deps:members` joined by `;` (lists `a,b` or `-`).
@@ -95,7 +96,7 @@ def handle : List String → Option String
       | "task" =>
         match (getNat kv "node").bind (getNode dag), getNat kv "index" with
         | some f, some index =>
-          let ws := fusedWrites dag (dag.length + 1) f index
+          let ws := fusedWrites dag index (f.name + 1) f
           let keys := dedupKeys (ws.map (·.1)) []
           some ("T " ++ Render.graph rFKey keys (fusedGraph dag f index) ++ "#" ++
                 joinWith "," ((fusedArgs dag f index).map rFKey))
@@ -108,6 +109,10 @@ def handle : List String → Option String
         match getNat kv "root", getNats kv "group" with
         | some root, some g => some (if groupOKb dag root g then "OK" else "FAIL")
         | _, _ => some "BAD params"
+      | "planok" =>
+        match getNat kv "root" with
+        | some root => some (if planOKb dag root then "OK" else "FAIL")
+        | none => some "BAD params"
       | "measure" =>
         match getNat kv "root" with
         | some root => match globalMaps dag root with
